@@ -39,9 +39,12 @@ def _binary_op(op, lhs, rhs):
     if lhs.nvec != rhs.nvec:
         raise ValueError("Operands do not have the same number of components.")
 
-    return lhs.__class__(
-        **{c: getattr(xyz, op)(getattr(rhs, c)) for c, xyz in lhs._xyz.items()}
-    )
+    out = {c: getattr(xyz, op)(getattr(rhs, c)) for c, xyz in lhs._xyz.items()}
+    if op in ("__iadd__", "__isub__", "__imul__", "__itruediv__"):
+        # The components have been updated in place: the vector remains the same
+        # object, so that every reference to it sees the new values and unit
+        return lhs
+    return lhs.__class__(**out)
 
 
 class Vector(Base):
